@@ -8,6 +8,7 @@ import (
 	"math/rand/v2"
 	"sort"
 	"strings"
+	"time"
 
 	"github.com/google/uuid"
 	"github.com/semafind/semadb/cluster"
@@ -23,6 +24,10 @@ type c15Op struct {
 	Pad    int    `json:"pad,omitempty"` // extra bytes per point
 	Col    string `json:"col,omitempty"`
 	FailAt int    `json:"fail_at,omitempty"` // insert: the n-th shard-level insert RPC of this request is refused cleanly by the shard server (0 = none)
+	// every established connection is reset before the request while the cluster is
+	// idle (all nodes stay up): the cached rpc clients are dead on next use and must
+	// be replaced without the request noticing
+	ResetConns bool `json:"reset_conns,omitempty"`
 }
 
 type c15Params struct {
@@ -41,11 +46,12 @@ func init() { Register(c15{}) }
 func (c15) ID() string { return "C15" }
 
 func (c15) Rule() string {
-	return "each run = 1-3 real ClusterNodes over the simulated transport with a per-shard point cap 3-10, a per-shard size cap just above a few points, a per-collection point quota and a per-user collection quota; a seeded sequence of insert requests (0-40 fresh ids, point sizes 30-3000 bytes, entry node per request; optionally one shard-level insert RPC of the request is refused cleanly by the shard server (error reply, not executed) => a failed range) and collection creations around the quota boundaries. After every request, from raw dumps of all shard files: every non-failed point is in exactly one shard and failed points in none; the points a request put into one shard are a contiguous run of its id-sorted batch; no shard exceeds the point cap; the collection total (raw and via GetShardsInfo) = previous total + points of non-failed ranges; a request over the point quota, and a creation over the collection quota, is refused with the quota error and leaves every node database and shard file logically unchanged. Non-trivial: >= 2 shards were filled by one request or a quota refusal happened. Distinct: (trace hash, final totals)."
+	return "each run = 1-3 real ClusterNodes over the simulated transport with a per-shard point cap 3-10, a per-shard size cap just above a few points, a per-collection point quota and a per-user collection quota; a seeded sequence of insert requests (0-40 fresh ids, point sizes 30-3000 bytes, entry node per request; optionally one shard-level insert RPC of the request is refused cleanly by the shard server (error reply, not executed) => a failed range; before a quarter of the requests every established connection is reset while the cluster is idle, so the cached rpc clients are dead on next use) and collection creations around the quota boundaries. After every request, from raw dumps of all shard files: every non-failed point is in exactly one shard and failed points in none; the points a request put into one shard are a contiguous run of its id-sorted batch; no shard exceeds the point cap; the collection total (raw and via GetShardsInfo) = previous total + points of non-failed ranges; a request over the point quota, and a creation over the collection quota, is refused with the quota error and leaves every node database and shard file logically unchanged. Non-trivial: >= 2 shards were filled by one request or a quota refusal happened. Distinct: (trace hash, final totals)."
 }
 
 func (c15) Generate(r *rand.Rand, tier string) (sim.Config, any) {
 	cfg := RandomSimConfig(r)
+	cfg.StmtYield = pick(r, []float64{0, 0, 0.02, 0.1}) // statement-level preemption in the handler / cluster packages
 	cfg.IdleLimitSec = 3600
 	p := c15Params{NServers: 1 + r.IntN(3), MaxShardPts: int64(3 + r.IntN(8)), MaxShardSize: pick(r, []int64{1 << 30, 1 << 30, 70000, 140000}), PointQuota: int64(20 + r.IntN(60)), ColQuota: 1 + r.IntN(3)}
 	nops := 4 + r.IntN(8)
@@ -66,6 +72,7 @@ func (c15) Generate(r *rand.Rand, tier string) (sim.Config, any) {
 		if r.IntN(4) == 0 {
 			op.FailAt = 1 + r.IntN(3)
 		}
+		op.ResetConns = r.IntN(4) == 0
 		p.Ops = append(p.Ops, op)
 	}
 	return cfg, p
@@ -194,6 +201,12 @@ func (c15) Execute(env *Env) {
 				env.Infra("digest: %v", err)
 				return
 			}
+			if op.ResetConns {
+				if k := net.ResetIdleConns(); k > 0 {
+					env.Stat("idle-connections-reset", k)
+					sim.Sleep(time.Second) // the rpc clients' reader goroutines see the reset
+				}
+			}
 			if op.Kind == "create" {
 				err := create(entry, op.Col)
 				switch {
@@ -307,7 +320,7 @@ func (c15) Execute(env *Env) {
 					perShard[locs[0]] = append(perShard[locs[0]], k)
 				}
 			}
-			for sh, idx := range perShard {
+			for sh, idx := range detRange(perShard) {
 				sort.Ints(idx)
 				if idx[len(idx)-1]-idx[0]+1 != len(idx) {
 					env.Violate("wrong-answer", "range-not-contiguous", "%s: shard %s received batch positions %v of the id-sorted batch, not a contiguous run", where, sh, idx)
@@ -319,7 +332,7 @@ func (c15) Execute(env *Env) {
 			}
 			counts := map[string]int{}
 			rawTotal := 0
-			for id, locs := range member {
+			for id, locs := range detRange(member) {
 				for _, l := range locs {
 					counts[l]++
 				}
@@ -328,13 +341,13 @@ func (c15) Execute(env *Env) {
 				}
 				_ = id
 			}
-			for sh, c := range counts {
+			for sh, c := range detRange(counts) {
 				if int64(c) > p.MaxShardPts {
 					env.Violate("wrong-answer", "shard-over-cap", "%s: shard %s holds %d points, cap %d", where, sh, c, p.MaxShardPts)
 					return
 				}
 			}
-			for id, locs := range memberBefore {
+			for id, locs := range detRange(memberBefore) {
 				if len(member[id]) != len(locs) {
 					env.Violate("wrong-answer", "existing-point-moved", "%s: previously stored point %d changed placement", where, PIDIndex(id))
 					return
